@@ -104,11 +104,14 @@ def popKey (d : List (String × Val)) (k : String) : List (String × Val) := dDe
 
 /-! ### model-local mutations: the new model signature is a function of the old one only -/
 
+/-- `bool(field_attrs.get(k))` -/
+def attrTruthy (attrs : List (String × Val)) (k : String) : Bool :=
+  match dGet attrs k with | some v => truthy v | none => false
+
 def simAddField (field ftype : String) (initial : Option Val) (attrs : List (String × Val))
     (m : ModelSig) : Except SimErr ModelSig :=
   if (m.getField field).isSome then .error .fieldExists
-  else if !isM2M ftype && !(match dGet attrs "null" with | some v => truthy v | none => false)
-      && initial.isNone then .error .needInitial
+  else if !isM2M ftype && !attrTruthy attrs "null" && initial.isNone then .error .needInitial
   else
     let related := match dGet attrs "related_model" with
       | some v => if v == vNull then none else some (unq v)
